@@ -168,6 +168,44 @@ SibArr(n, k) ==
 SibProgs == {SibStr(n, x1, x2) : n \in 1..7, x1 \in {<<33>>, <<A_uml, 33>>}, x2 \in {<<63>>, <<63, C_euro, 63>>}}
             \cup {SibArr(n, k) : n \in 1..6, k \in 1..2}
 
+\* (e2) the same with a left operand that is itself the result of repeated concatenation (an accumulator)
+AccArr(n, k) ==
+  LET TA_ == TArr(T_num)
+      R1 == EVar("r1", TA_)   R2 == EVar("r2", TA_)   Snap == EVar("snap", TA_)
+  IN Program(<<SDecl("w", TA_), SFor("i", "num", <<ENum(I(n))>>, <<SAsg(WA, EBin("+", WA, EArr(<<EVar("i", T_num)>>)))>>),
+               SInfer("snap", WA), SInfer("r1", EBin("+", WA, EArr([i \in 1..k |-> ENum(I(10 + i))]))), SInfer("r2", EBin("+", WA, EArr([i \in 1..k |-> ENum(I(20 + i))]))),
+               SCall(ECallB("print", <<R1, R2, WA, Snap>>)), SAsg(WA, EBin("+", WA, EArr(<<ENum(I(7))>>))), SAsg(EIdx(R1, ENum(I(0))), ENum(I(99))),
+               SCall(ECallB("print", <<R1, R2, WA, Snap>>))>>, <<>>, <<>>)
+AccStr(n) ==
+  LET R1 == EVar("r1", T_str)   R2 == EVar("r2", T_str)
+  IN Program(<<SInfer("w", EStr(<<>>)), SFor("", "num", <<ENum(I(n))>>, <<SAsg(WS, EBin("+", WS, EStr(<<A_uml>>)))>>),
+               SCall(ECallB("print", <<ECallB("len", <<WS>>), ESlice(WS, <<ENum(I(0))>>, <<>>)>>)),
+               SInfer("r1", EBin("+", WS, EStr(<<33>>))), SInfer("r2", EBin("+", WS, EStr(<<63>>))),
+               SCall(ECallB("print", <<R1, R2, WS, EIdx(R1, EUn("-", ENum(I(1)))), EIdx(R2, EUn("-", ENum(I(1))))>>))>>, <<>>, <<>>)
+AccProgs == {AccArr(n, k) : n \in 1..7, k \in 1..2} \cup {AccStr(n) : n \in 1..6}
+
+\* (e3) operands, arguments and elements are evaluated left to right, each read seeing the effects of the calls to its
+\*      left and none of the calls to its right: a global counter / word that a called function changes
+CtrV == EVar("counter", T_num)
+WordV == EVar("word", T_str)
+NextF == FuncDef("next", <<>>, <<>>, T_num, <<SAsg(CtrV, EBin("+", CtrV, ENum(I(1)))), SRetV(CtrV, T_num)>>)
+CurF == FuncDef("cur", <<>>, <<>>, T_num, <<SRetV(CtrV, T_num)>>)
+RenF == FuncDef("ren", <<>>, <<>>, T_str, <<SAsg(WordV, EBin("+", WordV, EStr(<<120>>))), SRetV(WordV, T_str)>>)
+ShowF == FuncDef("show", <<Param("a", T_num), Param("b", T_num), Param("c", T_num)>>, <<>>, T_none, <<SCall(ECallB("print", <<EVar("a", T_num), EVar("b", T_num), EVar("c", T_num)>>))>>)
+SumF == FuncDef("sum", <<>>, <<Param("ns", T_num)>>, T_none, <<SCall(ECallB("print", <<EVar("ns", TArr(T_num))>>))>>)
+Nx == ECallU("next", FSig(NextF), <<>>)
+Cu == ECallU("cur", FSig(CurF), <<>>)
+Rn == ECallU("ren", FSig(RenF), <<>>)
+Interleaved ==
+  { EBin("+", CtrV, Nx), EBin("+", Nx, CtrV), EBin("-", EBin("*", CtrV, ENum(I(10))), Nx), EBin("+", Cu, Nx), EBin("==", Cu, Nx), EBin("==", CtrV, Nx), EBin("<", CtrV, Nx),
+    EBin("+", WordV, Rn), EBin("+", Rn, WordV), EBin("==", WordV, Rn),
+    EArr(<<Nx, CtrV, Nx, CtrV>>), EArr(<<CtrV, Nx, CtrV>>), EMap(<<K_a, K_b, <<99>>>>, <<CtrV, Nx, CtrV>>), EArr(<<WordV, Rn, WordV>>),
+    EBin("and", EBin("==", CtrV, ENum(I(0))), EBin("==", Nx, ENum(I(1)))), EBin("or", EBin(">", CtrV, ENum(I(0))), EBin("==", Nx, CtrV)) }
+InterProgs == { [Program(<<SInfer("counter", ENum(I(0))), SInfer("word", EStr(<<119>>)), SCall(ECallB("print", <<e>>)), SCall(ECallB("print", <<CtrV, WordV>>))>>,
+                         <<NextF, CurF, RenF>>, <<>>) EXCEPT !.fl = TRUE] : e \in Interleaved }
+              \cup { [Program(<<SInfer("counter", ENum(I(0))), SCall(ECallU("show", FSig(ShowF), xs)), SCall(ECallU("sum", FSig(SumF), xs)), SCall(ECallB("print", <<CtrV>>))>>,
+                              <<NextF, ShowF, SumF>>, <<>>) EXCEPT !.fl = TRUE] : xs \in {<<Nx, CtrV, Nx>>, <<CtrV, Nx, CtrV>>, <<CtrV, CtrV, Nx>>} }
+
 \* (f) deep equality compares contents, also when one operand is contained in the other by reference (acyclic)
 EqNest ==
   LET TAA == TArr(T_any)   TMA == TMap(T_any)
@@ -189,7 +227,7 @@ Table == NumOps \cup StrOps \cup BoolOps \cup UnOps \cup ArrOps
 CasesOf(class, es) == {MkCase("FamExpr", class, PrintProg(e)) : e \in es}
 FamCases == CasesOf("lattice", Lattice) \cup CasesOf("table", Table) \cup {MkCase("FamExpr", "list", p) : p \in ListProgs}
             \cup {MkCase("FamExpr", "repeat", p) : p \in RepProgs}
-            \cup {MkCase("FamExpr", "siblings", p) : p \in SibProgs} \cup {MkCase("FamExpr", "nested-equality", p) : p \in EqNest}
+            \cup {MkCase("FamExpr", "siblings", p) : p \in SibProgs \cup AccProgs} \cup {MkCase("FamExpr", "interleaved", p) : p \in InterProgs} \cup {MkCase("FamExpr", "nested-equality", p) : p \in EqNest}
 FamInit == InitWith(FamCases)
 
 =============================================================================
